@@ -6,7 +6,7 @@ from ..gen import ev_tok, fl_tok, AUTHORS, ID
 from ..storecheck import HistGen
 from ..conc import forced
 
-THEOREMS = ['remove_exact', 'removed_is_gone', 'others_stay', 'resubmit_after_remove', 'resubmit_not_deleted_by_removal', 'vanish_only_removes', 'vanish_exact', 'ephemeral_never_live', 'ephemeral_from_source']
+THEOREMS = ['remove_exact', 'removed_is_gone', 'others_stay', 'resubmit_after_remove', 'resubmit_not_deleted_by_removal', 'vanish_only_removes', 'vanish_exact', 'ephemeral_never_live', 'ephemeral_from_source', 'spec_remove_vanish_exact']
 
 
 def races(c, runner):
